@@ -12,11 +12,13 @@ package server
 // reads), the rapid property, the native fuzz target and the replay test.
 
 import (
+	"bytes"
 	"encoding/hex"
 	"encoding/json"
 	"fmt"
 	"os"
 	"path/filepath"
+	"strconv"
 	"strings"
 	"sync"
 	"testing"
@@ -28,14 +30,18 @@ import (
 )
 
 // ---------------------------------------------------------------------------------------------
-// known findings that are excluded by construction (active only while the key is listed as known)
-
-const (
-	w13KeyShortValueFrame = "C13:binary:LOCK:protocol.NewLockCommandDataFromOriginBytes"
-)
+// known findings. A finding is identified by the innermost repository function of the panic stack
+// (the last field of the failure key); while a key with that function is listed as known
+// (VERIF_KNOWN_KEYS), the generator does not produce the inputs that are known to reach it (each such
+// decision is counted with st.Exclude) and a crash in that function on a mutated / raw stream is
+// counted as a known hit instead of failing the run, so the search continues behind it. Process
+// deaths cannot be survived, so those are additionally filtered on the raw bytes (w13RawKnown).
 
 type w13Known struct {
 	keys map[string]bool
+	// root causes, see /verif/harness/notes/C13.md
+	shortFrame, args2flag, setexArity, appendNil, callDbid, incrNoValue, lockData, scanArity, valueOffset,
+	lessVersion, elemBounds, propWalk, errMsg12, willRecursion, ackUnheld bool
 }
 
 var (
@@ -44,13 +50,30 @@ var (
 )
 
 func w13KnownKeys() *w13Known {
-	w13KnownOnce.Do(func() { w13KnownVal = &w13Known{keys: vKnownKeys()} })
+	w13KnownOnce.Do(func() {
+		k := &w13Known{keys: vKnownKeys()}
+		k.shortFrame = k.fn("protocol.NewLockCommandDataFromOriginBytes")
+		k.args2flag = k.fn("protocol.(*TextCommandConverter).ConvertArgs2Flag")
+		k.setexArity = k.fn("protocol.(*TextCommandConverter).ConvertTextSetEXCommand")
+		k.appendNil = k.fn("protocol.(*LockResultCommandData).GetValueSize")
+		k.callDbid = k.fn("server.(*BinaryServerProtocol).commandHandleListLockCommand") || k.fn("server.(*BinaryServerProtocol).commandHandleListLockedCommand") ||
+			k.fn("server.(*BinaryServerProtocol).commandHandleListWaitCommand")
+		k.incrNoValue = k.fn("server.(*LockManagerData).GetValueOffset")
+		k.lockData = k.fn("server.(*LockManager).ProcessLockData") // PIPELINE tail, SHIFT beyond the value, POP over a lying element length
+		k.scanArity = k.fn("server.(*TextServerProtocol).commandHandlerScanCommand")
+		k.valueOffset = k.fn("protocol.(*LockCommandData).GetValueOffset") || k.fn("protocol.(*LockResultCommandData).GetValueOffset")
+		k.lessVersion = k.fn("server.(*LockDB).Lock")
+		k.elemBounds = k.fn("protocol.(*LockResultCommandData).GetArrayValue") || k.fn("protocol.(*LockResultCommandData).GetKVValue")
+		k.propWalk = k.fn("protocol.(*LockResultCommandData).GetDataProperty") || k.fn("protocol.(*LockResultCommandData).GetDataProperties")
+		k.errMsg12 = k.fn("protocol.(*TextCommandConverter).WriteTextLockAndUnLockCommandResult")
+		k.willRecursion = k.fn("server.(*BinaryServerProtocol).ProcessLockResultCommand")
+		k.ackUnheld = k.fn("server.(*ReplicationAckDB).ProcessLeaderPushLock")
+		w13KnownVal = k
+	})
 	return w13KnownVal
 }
 
-func (k *w13Known) has(key string) bool { return k.keys[key] }
-
-// hasSuffix: is any known key about this function (whatever command reached it)?
+// fn: is any known C13 key about this function (whatever protocol / command reached it)?
 func (k *w13Known) fn(fn string) bool {
 	for key := range k.keys {
 		if strings.HasPrefix(key, "C13:") && strings.HasSuffix(key, ":"+fn) {
@@ -58,6 +81,38 @@ func (k *w13Known) fn(fn string) bool {
 		}
 	}
 	return false
+}
+
+// covers: is this failure key a known finding?
+func (k *w13Known) covers(key string) bool {
+	if k.keys[key] {
+		return true
+	}
+	if i := strings.LastIndex(key, ":"); i >= 0 && strings.HasPrefix(key, "C13:") && !strings.HasPrefix(key, "C13:probe:") {
+		return k.fn(key[i+1:])
+	}
+	return false
+}
+
+// w13RawKnown: byte-level over-approximation of the inputs of known findings that kill the whole
+// process. Every frame a binary connection parses starts with magic, version, type, wherever the
+// stream was cut into reads, so "an INIT frame and a WILL_LOCK / WILL_UNLOCK frame on one connection"
+// implies that both byte triples occur.
+func (k *w13Known) w13RawKnown(b []byte) string {
+	if k.willRecursion && bytes.Contains(b, []byte{0x56, 0x01, 0x00}) &&
+		(bytes.Contains(b, []byte{0x56, 0x01, 0x08}) || bytes.Contains(b, []byte{0x56, 0x01, 0x09})) {
+		return "INIT and WILL_LOCK/WILL_UNLOCK on one binary connection (known finding: result recursion on close kills the process)"
+	}
+	if k.ackUnheld {
+		// a LOCK frame (also WILL_LOCK, also embedded in an EXECUTE value frame) with Expried 0 and the
+		// ack-required time-out flag: the AOF channel goroutine dereferences the freed lock
+		for i := 0; i+64 <= len(b); i++ {
+			if b[i] == 0x56 && b[i+1] == 0x01 && (b[i+2] == 1 || b[i+2] == 8) && b[i+56]&0x10 != 0 && b[i+57] == 0 && b[i+58] == 0 {
+				return "LOCK frame with Expried 0 and the ack-required flag (known finding: AOF channel goroutine dereferences the freed lock)"
+			}
+		}
+	}
+	return ""
 }
 
 // ---------------------------------------------------------------------------------------------
@@ -73,6 +128,7 @@ type w13Gen struct {
 	noAdm  bool // connection will be mutated: no administrative words at all
 	hasAdm bool
 	focus  bool // most commands of the case address one key (value operations meet each other's state)
+	timers bool // timer variant: time-outs / expiries of milliseconds to 1 s and a pause before the probe
 }
 
 // with returns a copy of the generator that draws from t (used inside rapid.Custom, which gives
@@ -228,8 +284,8 @@ func (g *w13Gen) genValueFrame(depth int, db byte) ([]byte, string) {
 	// every length 0..64 with arbitrary content
 	if g.pct("vfExact", 22) {
 		l := g.n("vfLen", 0, 64)
-		if l < 2 && g.known.fn("protocol.NewLockCommandDataFromOriginBytes") {
-			g.exclude("value frame shorter than its 2-byte header (known finding " + w13KeyShortValueFrame + ")")
+		if l < 2 && g.known.shortFrame {
+			g.exclude("value frame shorter than its 2-byte header (known finding)")
 			l = 2 + l
 		}
 		body := g.raw("vfBody", l)
@@ -238,6 +294,21 @@ func (g *w13Gen) genValueFrame(depth int, db byte) ([]byte, string) {
 		}
 		if l >= 2 && g.pct("vfExactFlags", 70) {
 			body[1] = byte(rapid.SampledFrom([]int{0, 1, 2, 4, 0x10, 0x20, 0x11, 0x12, 0x14, 0x30, 0xff}).Draw(g.t, "vfFlag"))
+		}
+		if l >= 2 {
+			// frames of arbitrary content reach several known findings at once; keep them out of the way
+			if (g.known.valueOffset || g.known.propWalk) && body[1]&0x10 != 0 {
+				g.exclude("arbitrary value frame with the property flag (known finding: property header is trusted)")
+				body[1] &^= 0x10
+			}
+			if (g.known.elemBounds || g.known.lockData) && body[1]&0x06 != 0 {
+				g.exclude("arbitrary value frame with the array/kv flag (known finding: element lengths are trusted)")
+				body[1] &^= 0x06
+			}
+			if t := body[0] & 0x3f; g.known.lockData && (t == 4 || t == 6) || g.known.incrNoValue && t == 2 {
+				g.exclude("arbitrary value frame of type INCR/SHIFT/PIPELINE (known findings in ProcessLockData)")
+				body[0] &^= 0x3f
+			}
 		}
 		out := make([]byte, 4+l)
 		w13Put32(out, uint32(l))
@@ -251,6 +322,10 @@ func (g *w13Gen) genValueFrame(depth int, db byte) ([]byte, string) {
 	}
 	if depth <= 0 && (typ == 5 || typ == 6) {
 		typ = 0
+	}
+	if typ == 4 && g.known.lockData {
+		g.exclude("SHIFT value operation (known finding: SHIFT beyond the value length)")
+		typ = 3
 	}
 	stage := byte(0)
 	if g.pct("vfStaged", 25) {
@@ -267,6 +342,7 @@ func (g *w13Gen) genValueFrame(depth int, db byte) ([]byte, string) {
 	var body []byte
 	body = append(body, stage<<6|typ, flags)
 	// property header
+	propLies := !(g.known.valueOffset || g.known.propWalk)
 	if g.pct("vfProps", 25) {
 		flags |= 0x10
 		body[1] = flags
@@ -276,17 +352,20 @@ func (g *w13Gen) genValueFrame(depth int, db byte) ([]byte, string) {
 			v := g.raw("vfPropVal", g.n("vfPropLen", 0, 12))
 			code := byte(g.n("vfPropCode", 0, 3))
 			vl := len(v)
-			if g.pct("vfPropLenLie", 10) {
+			if g.pct("vfPropLenLie", 10) && propLies {
 				vl = rapid.SampledFrom([]int{0, 1, 0xff, 0xffff, len(v) + 1}).Draw(g.t, "vfPropLenLieVal")
 			}
 			props = append(props, code, byte(vl), byte(vl>>8))
 			props = append(props, v...)
 		}
 		pl := len(props)
-		if g.pct("vfPropTotalLie", 20) {
+		if !propLies {
+			g.exclude("property header that disagrees with the frame (known finding: property header is trusted)")
+		}
+		if g.pct("vfPropTotalLie", 20) && propLies {
 			pl = rapid.SampledFrom([]int{0, 1, 2, 3, 0xff, 0x100, 0xffff, 0xfff8, len(props) + 1, len(props) + 100}).Draw(g.t, "vfPropTotalLieVal")
 		}
-		if g.pct("vfPropHeaderCut", 6) {
+		if g.pct("vfPropHeaderCut", 6) && propLies {
 			// flag set but the 2-byte header itself is missing or cut
 			if g.pct("vfPropHeaderHalf", 50) {
 				body = append(body, byte(pl))
@@ -318,14 +397,18 @@ func (g *w13Gen) genValueFrame(depth int, db byte) ([]byte, string) {
 			body = append(body, p.B...)
 			desc = append(desc, "["+p.Note+"]")
 		}
-		if g.pct("vfPipeTail", 20) {
+		if g.known.lockData {
+			g.exclude("PIPELINE payload with a tail shorter than a length prefix (known finding)")
+		} else if g.pct("vfPipeTail", 20) {
 			tail := g.raw("vfPipeTailBytes", g.n("vfPipeTailLen", 1, 7))
 			body = append(body, tail...)
 			desc = append(desc, fmt.Sprintf("tail=%x", tail))
 		}
 	case typ == 2: // INCR
 		l := 8
-		if g.pct("vfIncrOdd", 25) {
+		if g.known.incrNoValue {
+			g.exclude("INCR operand that is not 8 bytes long (known finding: INCR on a key without value)")
+		} else if g.pct("vfIncrOdd", 25) {
 			l = g.n("vfIncrLen", 0, 12)
 		}
 		body = append(body, g.raw("vfIncr", l)...)
@@ -351,7 +434,9 @@ func (g *w13Gen) genValueFrame(depth int, db byte) ([]byte, string) {
 			for i := 0; i < k; i++ {
 				e := g.raw("vfElem", g.n("vfElemLen", 0, 9))
 				el := uint32(len(e))
-				if g.pct("vfElemLie", 15) {
+				if g.known.elemBounds || g.known.lockData {
+					g.exclude("array/kv element length that disagrees with the frame (known finding)")
+				} else if g.pct("vfElemLie", 15) {
 					el = uint32(rapid.SampledFrom([]int{0, 1, 0xff, 0xffff, 0x7fffffff, 0xffffffff, len(e) + 1, len(e) + 7}).Draw(g.t, "vfElemLieVal"))
 				}
 				var lb [4]byte
@@ -359,7 +444,7 @@ func (g *w13Gen) genValueFrame(depth int, db byte) ([]byte, string) {
 				body = append(body, lb[:]...)
 				body = append(body, e...)
 			}
-			if g.pct("vfElemTail", 15) {
+			if g.pct("vfElemTail", 15) && !(g.known.elemBounds || g.known.lockData) {
 				body = append(body, g.raw("vfElemTailBytes", g.n("vfElemTailLen", 1, 5))...)
 			}
 		} else {
@@ -376,9 +461,12 @@ func (g *w13Gen) genValueFrame(depth int, db byte) ([]byte, string) {
 	declared := uint32(len(body))
 	if g.pct("vfLenLie", 7) {
 		declared = uint32(rapid.SampledFrom([]int{0, 1, 2, 3, 5, 6, 7, len(body) - 1, len(body) + 1, len(body) + 64, 1048576, 1048577, 0x7fffffff, 0x80000000, 0xffffffff}).Draw(g.t, "vfLenLieVal"))
-		if declared < 2 && g.known.fn("protocol.NewLockCommandDataFromOriginBytes") {
-			g.exclude("value frame shorter than its 2-byte header (known finding " + w13KeyShortValueFrame + ")")
+		if declared < 2 && g.known.shortFrame {
+			g.exclude("value frame shorter than its 2-byte header (known finding)")
 			declared = uint32(len(body))
+		}
+		if declared < uint32(len(body)) && flags&0x10 != 0 && !propLies {
+			declared = uint32(len(body)) // a shortened frame would cut into the property header
 		}
 		desc = append(desc, fmt.Sprintf("declared=%d/%d", declared, len(body)))
 	}
@@ -429,9 +517,27 @@ func (g *w13Gen) genLockFrame(depth int, embedded bool, db byte) ([]byte, string
 	copy(f[21:37], id[:])
 	copy(f[37:53], key[:])
 	timeout, tflag := g.u16("lfTimeout"), g.flags16("lfTimeoutFlag", w13TimeoutBits)
+	if tflag&0x4000 != 0 && g.known.lessVersion {
+		g.exclude("time-out flag 0x4000 (known finding: less-lock-version without a holder)")
+		tflag &^= 0x4000
+	}
 	expried, eflag := g.u16("lfExpried"), g.flags16("lfExpriedFlag", w13ExpriedBits)
+	if expried == 0 && tflag&0x1000 != 0 && g.known.ackUnheld {
+		g.exclude("LOCK frame with Expried 0 and the ack-required flag (known finding)")
+		tflag &^= 0x1000
+	}
 	if g.focus && expried == 0 && g.pct("lfFocusHold", 60) {
 		expried = 30
+	}
+	if g.timers {
+		// holds and waits that end while the case is still being observed
+		if g.pct("lfTimerMs", 70) {
+			expried, eflag = uint16(g.n("lfTimerExpriedMs", 1, 60)), (eflag|0x0400)&^0x4040
+			timeout, tflag = uint16(g.n("lfTimerTimeoutMs", 0, 60)), (tflag|0x0400)&^0x8040
+		} else {
+			expried, eflag = uint16(g.n("lfTimerExpriedS", 0, 1)), eflag&^0x4440
+			timeout, tflag = uint16(g.n("lfTimerTimeoutS", 0, 1)), tflag&^0x8440
+		}
 	}
 	count := g.u16("lfCount")
 	rcount := byte(rapid.SampledFrom([]int{0, 0, 1, 2, 0xfe, 0xff}).Draw(g.t, "lfRcount"))
@@ -473,6 +579,10 @@ func (g *w13Gen) genCallFrame() ([]byte, string) {
 	case 2:
 		k := g.raw("cfOddKey", g.n("cfOddKeyLen", 0, 40))
 		db := uint32(rapid.SampledFrom([]int{0, 1, 255, 256, 257, 65536, 0x7fffffff, 0xffffffff}).Draw(g.t, "cfWideDb"))
+		if db > 255 && g.known.callDbid {
+			g.exclude("CALL LIST_* with a DbId above 255 (known finding)")
+			db &= 0xff
+		}
 		content, _ = proto.Marshal(&protobuf.LockDBListLockedRequest{DbId: db, LockKey: k})
 	case 3:
 		content = g.raw("cfJunk", g.n("cfJunkLen", 0, 40))
@@ -639,6 +749,14 @@ func (g *w13Gen) num(label string) string {
 // safe values for everything that makes a handler wait: 0, a few milliseconds, or unparsable
 func (g *w13Gen) safeLockTimeout(label string) string {
 	flags := int(g.flags16(label+"Flags", w13TimeoutBits))
+	if flags&0x4000 != 0 && g.known.lessVersion {
+		g.exclude("time-out flag 0x4000 (known finding: less-lock-version without a holder)")
+		flags &^= 0x4000
+	}
+	if flags&0x1000 != 0 && (g.known.errMsg12 || g.known.ackUnheld) {
+		g.exclude("text lock with the ack-required flag (known findings: result code 12 has no text; ack of a lock that is not held)")
+		flags &^= 0x1000
+	}
 	switch g.n(label+"Kind", 0, 3) {
 	case 0, 1:
 		return fmt.Sprint(flags << 16)
@@ -707,6 +825,12 @@ func (g *w13Gen) lockOptions(depth int) []string {
 
 func (g *w13Gen) lockExpried(label string) string {
 	flags := int(g.flags16(label+"Flags", w13ExpriedBits))
+	if g.timers {
+		if g.pct(label+"TimerMs", 70) {
+			return fmt.Sprint(((flags|0x0400)&^0x4040)<<16 | g.n(label+"TimerMsVal", 1, 60))
+		}
+		return fmt.Sprint((flags&^0x4440)<<16 | g.n(label+"TimerSVal", 0, 1))
+	}
 	switch g.n(label+"Kind", 0, 3) {
 	case 0:
 		return fmt.Sprint(flags<<16 | g.n(label+"Sec", 0, 5))
@@ -847,7 +971,54 @@ func (g *w13Gen) sanitize(a []string) []string {
 	return a
 }
 
+var w13KVOptStart = map[string]int{"SET": 3, "GETSET": 3, "SETNX": 3, "APPEND": 3, "SETEX": 4, "PSETEX": 4}
+
+// knownTextFilter rewrites the argument vectors that are known to crash (only while listed as known).
 func (g *w13Gen) knownTextFilter(a []string) []string {
+	if len(a) == 0 {
+		return a
+	}
+	up := strings.ToUpper(a[0])
+	isKw := func(s string) bool {
+		switch strings.ToUpper(s) {
+		case "EX", "PX", "TX", "PTX":
+			return true
+		}
+		return false
+	}
+	if g.known.setexArity && (up == "SETEX" || up == "PSETEX") && len(a) == 3 {
+		g.exclude("SETEX/PSETEX without the value argument (known finding)")
+		a = append(a, "v")
+	}
+	if g.known.args2flag {
+		start, ok := w13KVOptStart[up]
+		switch up {
+		case "INCR", "INCRBY", "DECR", "DECRBY":
+			start, ok = 3, true
+			if len(a) > 2 {
+				start = 4
+			}
+		}
+		// ConvertArgs2Flag tests i+i instead of i+1: it only overruns when the option list is a single keyword
+		if ok && len(a) == start+1 && isKw(a[start]) {
+			g.exclude("single trailing EX/PX/TX/PTX without value (known finding)")
+			a = append(a, "0")
+		}
+	}
+	if g.known.scanArity && up == "SCAN" && len(a) >= 3 && len(a)%2 == 1 {
+		if l := strings.ToUpper(a[len(a)-1]); l == "MATCH" || l == "COUNT" {
+			g.exclude("SCAN with a trailing MATCH/COUNT without value (known finding)")
+			a = append(a, "1")
+		}
+	}
+	if g.known.lockData && (up == "LOCK" || up == "UNLOCK" || up == "PUSH") {
+		for i := 2; i+1 < len(a); i += 2 {
+			if strings.ToUpper(a[i]) == "SHIFT" && a[i+1] != "0" {
+				g.exclude("SHIFT value operation (known finding: SHIFT beyond the value length)")
+				a[i+1] = "0"
+			}
+		}
+	}
 	return a
 }
 
@@ -943,7 +1114,14 @@ func (g *w13Gen) genTextStream() ([]byte, []string) {
 	out = append(out, pre...)
 	notes = append(notes, pn)
 	for _, p := range g.pieces("commands", 1, 12, func(sg *w13Gen) w13Piece {
-		b, n := sg.renderRESP(sg.genTextArgs())
+		a := sg.genTextArgs()
+		b, n := sg.renderRESP(a)
+		if sg.known.appendNil && len(a) >= 3 && strings.ToUpper(a[0]) == "APPEND" {
+			// APPEND answers through a nil value when the key has none: give it one first
+			sg.exclude("APPEND on a key without value (known finding)")
+			pb, pn := sg.renderPlain([]string{"SET", a[1], "seed"})
+			b, n = append(pb, b...), pn+" ; "+n
+		}
 		return w13Piece{B: b, Note: n, Admin: sg.hasAdm}
 	}) {
 		out = append(out, p.B...)
@@ -1118,20 +1296,29 @@ func w13GenConn(g *w13Gen) w13Conn {
 	}
 	c.Hex = hex.EncodeToString(b)
 	c.Chunks = g.genChunks(len(b), kind == "binary")
-	if g.pct("linger", 5) {
+	if g.timers {
+		c.Linger = rapid.SampledFrom([]int{150, 150, 150, 150, 2300}).Draw(g.t, "lingerMs")
+	} else if g.pct("linger", 5) {
 		c.Linger = rapid.SampledFrom([]int{30, 60, 120, 120, 2200}).Draw(g.t, "lingerMs")
 	}
 	return c
 }
 
 // w13GenCase draws cases until one passes the domain filter (exclusions are counted).
-func w13GenCase(t *rapid.T, st *vStat) *w13Case {
+func w13GenCase(t *rapid.T, st *vStat) *w13Case { return w13GenCaseVariant(t, st, false) }
+
+func w13GenCaseVariant(t *rapid.T, st *vStat, timers bool) *w13Case {
 	g := w13NewGen(t, st)
 	c := &w13Case{}
-	g.focus = g.pct("focusKey", 60)
+	g.timers = timers
+	g.focus = g.pct("focusKey", 60) || timers
 	hi := rapid.SampledFrom([]int{1, 1, 1, 1, 1, 1, 1, 2, 2, 3}).Draw(t, "maxConns")
 	conns := rapid.SliceOfN(rapid.Custom(func(t *rapid.T) w13Conn { return w13GenConn(g.with(t)) }), 1, hi).Draw(t, "conns")
 	for _, cn := range conns {
+		if why := g.known.w13RawKnown(cn.bytes()); why != "" {
+			g.exclude(why)
+			continue
+		}
 		if len(cn.Mut) > 0 || cn.Kind == "raw" {
 			if w := w13AdminWord(cn.bytes()); w != "" {
 				g.exclude("mutated/raw stream contains administrative command word " + w)
@@ -1197,6 +1384,9 @@ func w13Classes(c *w13Case, info w13Info) (cls []string, nontrivial bool) {
 		if ci.OutLen > 0 {
 			add("server replied")
 		}
+		if ci.Released > 0 {
+			add("handler waited for a queued lock and was released by a forced time-out")
+		}
 	}
 	if len(c.Conns) > 1 {
 		add("several connections")
@@ -1231,7 +1421,7 @@ func w13WriteInflight(test string, c *w13Case) {
 
 // w13Judge runs one case and reports through st; it returns the failure (nil if the case passed,
 // was inconclusive, or hit a known finding).
-func w13Judge(st *vStat, c *w13Case) *w13Failure {
+func w13Judge(st *vStat, c *w13Case, fuzzing bool) *w13Failure {
 	info, fail := w13RunCase(c)
 	cls, nontrivial := w13Classes(c, info)
 	if info.Inconclusive != "" {
@@ -1239,25 +1429,30 @@ func w13Judge(st *vStat, c *w13Case) *w13Failure {
 	}
 	st.Case(nontrivial, c.fingerprint(), cls, func() interface{} { return w13Sample(c) })
 	if info.Inconclusive != "" {
+		if fuzzing {
+			// a fuzz worker must not exit: the coordinator would take that for a crash of the input
+			st.Exclude("not judged (watchdog / harness): " + strings.SplitN(info.Inconclusive, " (stream", 2)[0])
+			return nil
+		}
 		w13NoteInconclusive(info.Inconclusive, c)
 		return nil
 	}
-	if fail != nil && vIsKnown(fail.Key) {
+	if fail != nil && w13KnownKeys().covers(fail.Key) {
 		st.KnownHit(fail.Key)
 		return nil
 	}
 	return fail
 }
 
-func w13WireProperty(test string) func(t *rapid.T) {
+func w13WireProperty(test string, timers bool) func(t *rapid.T) {
 	st := vstat(test)
 	return func(t *rapid.T) {
-		c := w13GenCase(t, st)
+		c := w13GenCaseVariant(t, st, timers)
 		if len(c.Conns) == 0 {
 			return
 		}
 		w13WriteInflight(test, c)
-		if fail := w13Judge(st, c); fail != nil {
+		if fail := w13Judge(st, c, false); fail != nil {
 			vFail(t, test, fail.Key, c, "%s", fail.Msg)
 		}
 	}
@@ -1267,7 +1462,17 @@ func TestC13_Wire(t *testing.T) {
 	if w13Supervise(t, "TestC13_Wire") {
 		return
 	}
-	rapid.Check(t, w13WireProperty("TestC13_Wire"))
+	rapid.Check(t, w13WireProperty("TestC13_Wire", false))
+}
+
+// TestC13_WireTimers: the same property with holds and waits of milliseconds to one second and a pause
+// before the probe, so that the time-out / expiry sweeps and staged EXECUTE frames act on client data
+// while the case is still observed.
+func TestC13_WireTimers(t *testing.T) {
+	if w13Supervise(t, "TestC13_WireTimers") {
+		return
+	}
+	rapid.Check(t, w13WireProperty("TestC13_WireTimers", true))
 }
 
 // ---------------------------------------------------------------------------------------------
@@ -1370,7 +1575,29 @@ func FuzzC13_Wire(f *testing.F) {
 		}
 	}
 	st := vstat("FuzzC13_Wire")
+	// fuzz workers are separate processes that are killed, not ended: they leave their statistics in
+	// $VERIF_STATS.w<pid> every few executions and the coordinator merges those files when f.Fuzz returns
+	worker := false
+	for _, a := range os.Args {
+		if strings.HasPrefix(a, "-test.fuzzworker") {
+			worker = true
+		}
+	}
+	execs := 0
+	defer func() {
+		if sp := os.Getenv("VERIF_STATS"); sp != "" && !worker {
+			files, _ := filepath.Glob(sp + ".w*")
+			for _, wf := range files {
+				w13MergeChildStats(wf)
+			}
+		}
+	}()
 	f.Fuzz(func(t *testing.T, data []byte, split uint16) {
+		if worker {
+			if execs++; execs%25 == 0 {
+				w13FlushWorkerStats()
+			}
+		}
 		if len(data) > 1<<21 {
 			return
 		}
@@ -1378,13 +1605,41 @@ func FuzzC13_Wire(f *testing.F) {
 			st.Exclude("stream contains administrative command word " + w)
 			return
 		}
+		if why := w13KnownKeys().w13RawKnown(data); why != "" {
+			st.Exclude(why)
+			return
+		}
 		// every input runs on a fresh instance, so a saved crasher reproduces on its own
 		c := &w13Case{Conns: []w13Conn{{Kind: "raw", Hex: hex.EncodeToString(data), Chunks: w13FuzzChunks(len(data), split)}}}
-		if fail := w13Judge(st, c); fail != nil {
+		if fail := w13Judge(st, c, true); fail != nil {
 			vRecordFailure("FuzzC13_Wire", fail.Key, fail.Msg, c)
 			t.Fatalf("VERIF-FAIL key=%s %s", fail.Key, fail.Msg)
 		}
 	})
+}
+
+func w13FlushWorkerStats() {
+	sp := os.Getenv("VERIF_STATS")
+	if sp == "" {
+		return
+	}
+	vStatsMu.Lock()
+	s := vStats["FuzzC13_Wire"]
+	var b []byte
+	if s != nil {
+		s.Fingerprints = s.Fingerprints[:0]
+		for k := range s.fp {
+			s.Fingerprints = append(s.Fingerprints, strconv.FormatUint(k, 36))
+		}
+		b, _ = json.Marshal(map[string]*vStat{"FuzzC13_Wire": s})
+	}
+	vStatsMu.Unlock()
+	if b != nil {
+		tmp := fmt.Sprintf("%s.w%d", sp, os.Getpid())
+		if os.WriteFile(tmp+".tmp", b, 0644) == nil {
+			_ = os.Rename(tmp+".tmp", tmp)
+		}
+	}
 }
 
 // ---------------------------------------------------------------------------------------------
